@@ -164,6 +164,38 @@ mod proofs {
         std::mem::forget(cd);
     }
 
+    // @harness id=C01 tier=quick unwind=132 timeout=2400 fs=4096
+    // @desc multiply_add_plain / multiply_sub_plain at the 64-bit carry corner of the numerator (q mod t)*m + (t+1)/2: the value added to / subtracted from the destination is exactly floor((q*m + floor((t+1)/2)) / t) mod q, for plaintext coefficients on both sides of the point where the low product word plus the rounding term carries into the high word, and at both ends of the plaintext range
+    // @bounds BFV N=2, one 60-bit prime q=1152921504606830593, t=1099511626751 (40 bits, q mod t = 1074774017); m in three windows of 256 consecutive values: around floor((2^64-1)/(q mod t)) (carry / no carry), [0,255], [t-256,t-1]; destination residue any value below 256; one-coefficient plaintext
+    // @funcs scaling_variant::multiply_add_plain, scaling_variant::multiply_sub_plain, multiply_u64_u64, add_u64, divide_u128_u64_inplace, multiply_u64operand_add_u64_mod
+    // @stubs HeContext::get_context_data -> linear search over the literal chain; alloc::sync::Arc::drop_slow -> no-op
+    #[kani::proof]
+    #[kani::stub(crate::context::HeContext::get_context_data, crate::context::verif_v::get_context_data_stub)]
+    #[kani::stub(alloc::sync::Arc::drop_slow, crate::verif_v::arc_drop_slow_noop)]
+    fn c01_multiply_add_plain_carry_corner() {
+        let ctx = lits::ctx_bfv_n2_q60_t40();
+        let cd = ctx.first_context_data().unwrap();
+        let q = 1152921504606830593u64; let t = 1099511626751u64;
+        let r = cd.coeff_modulus_mod_plain_modulus();
+        assert!(r == q % t && cd.plain_upper_half_threshold() == (t + 1) / 2);
+        let m0 = u64::MAX / r;                                   // largest m with r*m < 2^64
+        assert!(m0 + 128 < t && (r as u128 * m0 as u128) + ((t + 1) / 2) as u128 >= 1u128 << 64);   // the window really straddles the carry
+        let w: u8 = kani::any();
+        match w { 0 => corner_case(&cd, q, t, m0 - 127), 1 => corner_case(&cd, q, t, 0), _ => corner_case(&cd, q, t, t - 256) }
+        std::mem::forget(cd); std::mem::forget(ctx);
+    }
+    fn corner_case(cd: &crate::context::ContextData, q: u64, t: u64, base: u64) {
+        let off: u8 = kani::any(); let d: u8 = kani::any(); let sub: bool = kani::any();
+        let m = base + off as u64;
+        let plain = mk_plaintext(1, vec![m], crate::PARMS_ID_ZERO, 1.0);
+        let mut dest = [d as u64, 7];
+        if sub { crate::util::scaling_variant::multiply_sub_plain(&plain, cd, &mut dest); } else { crate::util::scaling_variant::multiply_add_plain(&plain, cd, &mut dest); }
+        let scaled = ((q as u128 * m as u128 + ((t + 1) / 2) as u128) / t as u128 % q as u128) as u64;
+        let e = if sub { (d as u64 + q - scaled) % q } else { (d as u64 + scaled) % q };
+        kani::cover!(off == 127); kani::cover!(off == 128);
+        assert!(dest[0] == e && dest[1] == 7);
+    }
+
     // @harness id=C07 tier=quick unwind=10 timeout=2400 fs=4096
     // @desc invariant_noise_budget(ct) equals the definition evaluated exactly: budget = max(0, bits(q) - bits(max_i |t*phase_i mod q|_centered) - 1) for the phase under the secret key, for EVERY ciphertext/key (also those with zero budget)
     // @bounds BFV N=2, q={97}, t=3; all ciphertext residues; secret key s = 1 - X
